@@ -212,28 +212,11 @@ theorem invariant_admissible_histories (s : St ℝ) (h : Inv s) (ops : List Op)
     (hw : ∀ o ∈ ops, Admissible s.dim o) : Inv (run s ops) :=
   inv_run_admissible s h ops hw
 
-/-- registers holding objects; `copy k j` is `s[j] = new Simplex(*s[k])` / `*s[j] = *s[k]` -/
-abbrev Store := Nat → Option (St ℝ)
-noncomputable def Store.copy (σ : Store) (k j : Nat) : Store := fun r => if r = j then σ k else σ r
-noncomputable def Store.call (σ : Store) (j : Nat) (o : Op) : Store :=
-  fun r => if r = j then (σ j).map (fun s => stepOp s o) else σ r
-
-theorem Store.calls_elsewhere (σ : Store) (j r : Nat) (h : r ≠ j) (ops : List Op) :
-    (ops.foldl (fun τ o => τ.call j o) σ) r = σ r := by
-  induction ops generalizing σ with
-  | nil => rfl
-  | cons o rest ih => rw [List.foldl_cons, ih]; simp [Store.call, h]
-
-/-- A copy is independent of its source: any calls on the copy leave the source as it was, any
-calls on the source leave the copy as it was.  In the model objects are values, so this holds by
-construction of the store; that the C++ copy shares nothing (parameter objects!) with its source
-is what the correspondence check validates (`copy`/`assign` operations, `state_stable` clause). -/
-theorem copy_independent (σ : Store) (k j : Nat) (h : k ≠ j) (ops : List Op) :
-    (ops.foldl (fun τ o => τ.call j o) (σ.copy k j)) k = σ k ∧
-    (ops.foldl (fun τ o => τ.call k o) (σ.copy k j)) j = σ k := by
-  constructor
-  · rw [Store.calls_elsewhere _ j k h]; simp [Store.copy, h]
-  · rw [Store.calls_elsewhere _ k j (Ne.symm h)]; simp [Store.copy]
+/-! Copies, assignment, the heap of objects with all their data members, the invariant over all
+histories of several objects: `Props/C19Obj.lean`.  The object `St` of this section (dimension,
+method, one constraint flag, parameter values, probabilities — what C09 / C13 build on) is the
+projection of the full object model run by the driver: `C19.value_model_is_projection`,
+`C19.ordered_value_model_is_projection`. -/
 
 /-! ## OrderedSimplex -/
 
